@@ -51,6 +51,8 @@ structure Worker where
   pc : WPc := .idle
   queue : List WReq := []
   lastSyncFailed : Bool := false
+  /-- chunk ids whose removal was postponed because the sync before it failed -/
+  postponed : List Nat := []
   /-- the sending half of the channel still exists -/
   senderAlive : Bool := true
 deriving Repr, DecidableEq, Inhabited
@@ -102,10 +104,11 @@ def WCtx.nonFlush (c : WCtx) (r : WReq) : WCtx :=
   | .appendFile id prevLast =>
     ({ c with w := { c.w with files := c.w.files ++ [FileEnt.mk id prevLast] } }).toRecv
   | .removeChunks ids =>
-    if c.w.lastSyncFailed then c.toRecv
-    else match ids with
+    let all := c.w.postponed ++ ids
+    if c.w.lastSyncFailed then ({ c with w := { c.w with postponed := all } }).toRecv
+    else match all with
       | [] => c.toRecv
-      | _ => { c with w := { c.w with pc := .unlinking ids } }
+      | _ => { c with w := { c.w with pc := .unlinking all, postponed := [] } }
   | .write .. => c.toRecv  -- unreachable
 
 /-- After the sync attempt: record the result, send the callbacks in batch
